@@ -51,6 +51,12 @@ class AsyncioRunner(BaseRunner):
             failure = OrphanedReturn(payload, result)
         self._tasks.discard(asyncio.current_task())
         if not self._payload_failure.done():
+            if isinstance(failure, StopIteration):
+                # a Future refuses StopIteration, which would silently drop the failure;
+                # wrap it the way PEP 479 does for generators and coroutines
+                wrapper = RuntimeError("payload raised StopIteration")
+                wrapper.__cause__ = failure
+                failure = wrapper
             self._payload_failure.set_exception(failure)
 
     async def manage_payloads(self):
